@@ -35,21 +35,25 @@ def _relevant(f, props):
     return props is None or any(p in f["recipe"]["prop"].split(",") for p in props) or f["kind"].startswith("harness")
 
 
-def make_file(path, N, opaque, rng, now=1_600_000_000):
-    """independent writer of a compact TDF file with N slots and the given opaque live blocks [(type, format, payload, comment_raw)]"""
+def make_file(path, N, opaque, rng, now=1_600_000_000, pad=False):
+    """independent writer of a TDF file with N slots and the given opaque live blocks [(type, format, payload, comment_raw)]:
+    compact, or (pad=True) well-formed with unclaimed bytes between and after the blocks"""
     T0 = 64 + 288 * N
     out = bytearray(SIG + struct.pack("<Ii", 1, N) + b"\x00" * 8 + struct.pack("<iii", now, now, now) + b"\x00" * 20)
     off = T0
     ents = []
+    pads = []
     for (t, f, payload, comment) in opaque:
         ents.append((t, f, off, len(payload), comment))
         off += len(payload)
+        pads.append(bytes(rng.randrange(256) for _ in range(rng.choice([0, 1, 8, 24]))) if pad else b"")
+        off += len(pads[-1])
     for (t, f, o, sz, comment) in ents:
         out += struct.pack("<IIiiiii", t, f, o, sz, now - 5, now - 3, now - 1) + b"\x00" * 4 + comment
     for _ in range(N - len(ents)):
         out += struct.pack("<IIiiiii", 0, 0, off, 0, now, now, now) + b"\x00" * 4 + b"free".ljust(256, b"\x00")
-    for (t, f, payload, comment) in opaque:
-        out += payload
+    for (t, f, payload, comment), extra in zip(opaque, pads):
+        out += payload + extra
     open(path, "wb").write(bytes(out))
 
 
@@ -99,10 +103,10 @@ def check_disk(path, model, case, seed, when):
     for e in ents:
         if e["type"] == 0 and e["size"] != 0:
             fails.append(_f("C03", "C03.unused", f"{when}: unused slot {e['slot']} has size {e['size']}", case, seed))
-    # C09: compact
+    # C09: compact (for histories that start from a compact file)
     off = T0
     seen_unused = False
-    for e in ents:
+    for e in (ents if getattr(model, "compact", True) else []):
         if e["type"] == 0:
             seen_unused = True
             continue
@@ -112,9 +116,15 @@ def check_disk(path, model, case, seed, when):
             fails.append(_f("C09", "C09.hole", f"{when}: live slot {e['slot']} (type {e['type']}) at offset {e['offset']}, expected {off} ({'hole' if e['offset'] > off else 'overlap'} of {abs(e['offset'] - off)} bytes)", case, seed))
         off = e["offset"] + e["size"]
     total = T0 + sum(e["size"] for e in live)
+    if not getattr(model, "compact", True):
+        total = len(raw)
+        for e in ents:
+            if e["type"] == 0 and (e["offset"] < max([T0] + [x["offset"] + x["size"] for x in live]) or e["offset"] > len(raw)):
+                fails.append(_f("C03", "C03.unused", f"{when}: unused slot {e['slot']} points at {e['offset']}, inside live data or past the end of the file ({len(raw)})", case, seed))
+                break
     if len(raw) != total:
         fails.append(_f("C09", "C09.length", f"{when}: file has {len(raw)} bytes, header + table + live blocks need {total}", case, seed))
-    for e in ents:
+    for e in (ents if getattr(model, "compact", True) else []):
         if e["type"] == 0 and e["offset"] != total:
             fails.append(_f("C09", "C09.free_offset", f"{when}: unused slot {e['slot']} has offset {e['offset']}, but the end of data is {total}", case, seed))
             break
@@ -247,6 +257,14 @@ def model_from_disk(path, N):
 
 def gen_block(rng, name):
     b = gen.BLOCK_GEN[name](rng)
+    if rng.random() < 0.25:
+        # a frame with an infinite leading component (the library stores it as a missing frame, DESIGN 3.4): the container
+        # clauses -- entry size = bytes stored, what is read back re-encodes to the stored bytes -- hold all the same
+        from harness import edits
+        try:
+            edits.poison_leading_component(name, b, rng)
+        except Exception:
+            pass
     return b
 
 
@@ -299,6 +317,25 @@ def invalid_requests(rng, model):
             tdf.replace_block(b)
         out.append(("replace EMG by one whose last label is too long", bad_emg))
         out.append(("setter with a block that cannot be encoded", lambda tdf: setattr(tdf, "emg", EMG(100, 4, format=EMGBlockFormat.byFrame))))
+    # a block whose table ENTRY cannot be encoded: a date outside the 32-bit range, a format that is not an enum member
+    from datetime import datetime as _dt
+
+    def spoil(b, how):
+        if how == "creation date 2040":
+            b.creation_date = _dt(2040, 1, 1)
+        elif how == "modification date 2150":
+            b.last_modification_date = _dt(2150, 6, 1)
+        else:
+            b.format = b.format.value        # a bare int where the entry needs `.value`
+        return b
+    for how in ("creation date 2040", "modification date 2150", "format given as a bare int"):
+        for nm in ("Events", "EMG", "Data3D"):
+            if TYPE_OF[nm] in live:
+                out.append((f"replace {nm} by a block with {how}", lambda tdf, nm=nm, how=how: tdf.replace_block(spoil(gen_block(rng, nm), how))))
+                out.append((f"setter ({nm} present) with a block with {how}", lambda tdf, nm=nm, how=how: setattr(tdf, SETTER[nm], spoil(gen_block(rng, nm), how))))
+                break
+        if free_names and not full:
+            out.append((f"add a block with {how}", lambda tdf, how=how: tdf.add_block(spoil(gen_block(rng, free_names[0]), how))))
     if TYPE_OF["Data3D"] in live:
         def bad3d(tdf):
             from basictdf.tdfData3D import Data3dBlockFormat
@@ -319,7 +356,7 @@ def run_history(seed, si, tier, focus=None):
     d = tempfile.mkdtemp(prefix="verif_tdf_")
     try:
         path = os.path.join(d, "h.tdf")
-        kind = rng.choice(["new", "foreign", "foreign", "foreign_full"])
+        kind = rng.choice(["new", "foreign", "foreign", "foreign_full", "foreign_padded"])
         case = dict(seq=si, start=kind)
         if kind == "new":
             Tdf.new(path)
@@ -332,10 +369,11 @@ def run_history(seed, si, tier, focus=None):
             opaque = []
             for t in rng.sample(OPAQUE_TYPES, min(nop, len(OPAQUE_TYPES))):
                 opaque.append((t, rng.randint(1, 3), bytes(rng.randrange(256) for _ in range(rng.choice([0, 1, 7, 40, 300]))), comment_raw(rng.choice(["", "opaque", "é€ comment"]), rng)))
-            make_file(path, N, opaque, rng)
+            make_file(path, N, opaque, rng, pad=(kind == "foreign_padded"))
             now = 1_600_000_000
             model = Model(N, [dict(type=t, format=f, payload=p, comment=c.split(b"\x00")[0].decode("cp1252"), cdate=now - 5, mdate=now - 3) for (t, f, p, c) in opaque])
         case["N"] = model.N
+        model.compact = kind != "foreign_padded"
         f0, _ = check_disk(path, model, case, seed, "initial file")
         if f0:
             return [_f("harness", "harness.initial", "the independently written start file is not compact: " + f0[0]["message"], case, seed)]
@@ -428,7 +466,10 @@ def run_history(seed, si, tier, focus=None):
                     ops_log.append(desc)
                     c2 = dict(case, ops=list(ops_log))
                     if model_lost:
+                        was_compact = getattr(model, "compact", True)
                         model = model_from_disk(path, model.N)
+                        if model is not None:
+                            model.compact = was_compact
                         if model is None:
                             fails.append(_f("C03", "C03.header", f"after '{desc}' the file can no longer be parsed", c2, seed))
                             return fails
@@ -603,14 +644,70 @@ def check_large_tail(seed, tier):
     return dict(what="add/remove/replace with more than 2 MiB of blocks after the one touched (real code)", cases=n, label="bounded", bound="one history, 8 operations"), fails
 
 
+def check_same_size_replace(seed, tier):
+    """C04 C10 C11: a block replaced by one of exactly the same encoded size but another format code (and back): the entry
+    carries the new format, and what is read is what was stored"""
+    from basictdf import Tdf
+    from basictdf.tdfData3D import Data3dBlockFormat
+    warnings.simplefilter("ignore")
+    fails, n = [], 0
+    d = tempfile.mkdtemp(prefix="verif_same_")
+    try:
+        for i in range(3 if tier == "quick" else 12):
+            rng = random.Random(f"{seed}:same:{i}")
+            nf = rng.randint(2, 6)
+            a = gen.data3d(rng, 1, nf, fmt=Data3dBlockFormat.byTrack, nlinks=0, masks=[[True] * nf])
+            gap = rng.randrange(1, nf)
+            b = gen.data3d(rng, 1, nf + 1, fmt=Data3dBlockFormat.byTrackWithoutLinks, masks=[[k != gap for k in range(nf + 1)]])
+            if a.nBytes != b.nBytes:
+                continue
+            path = os.path.join(d, f"s{i}.tdf")
+            Tdf.new(path)
+            model = Model(14, [])
+            ev = gen_block(rng, "Events")
+
+            def entry(nm, blk, comment="Generated by basicTDF"):
+                return dict(type=TYPE_OF[nm], format=blk.format.value, payload=real_write(nm, blk), comment=comment, cdate=secs(blk.creation_date), mdate=secs(blk.last_modification_date), fresh=True)
+            log = []
+            with Tdf(path).allow_write() as t:
+                steps = [("add Events", lambda: t.add_block(ev), lambda: model.live.append(entry("Events", ev))),
+                         ("add Data3D byTrack (last block)", lambda: t.add_block(a), lambda: model.live.append(entry("Data3D", a))),
+                         ("data3D = byTrackWithoutLinks block of the same size", lambda: setattr(t, "data3D", b), lambda: (model.live.pop(), model.live.append(entry("Data3D", b)))),
+                         ("replace_block(byTrack block of the same size, comment)", lambda: t.replace_block(a, comment="again"), lambda: (model.live.pop(), model.live.append(entry("Data3D", a, "again"))))]
+                for desc, call, upd in steps:
+                    n += 1
+                    log.append(desc)
+                    case = dict(same_size=i, ops=list(log))
+                    try:
+                        call()
+                        upd()
+                    except Exception as ex:
+                        fails.append(_f("C11,C04,C10", "C11.valid_operation_refused", f"valid operation '{desc}' raised {ex!r}", case, seed))
+                        break
+                    fl, _ = check_disk(path, model, case, seed, f"after '{desc}'")
+                    fails += fl
+                    fails += check_memory(t, path, model, case, seed, f"after '{desc}'")
+                    for m in model.live:
+                        m.pop("fresh", None)
+                    if fails:
+                        break
+            if fails:
+                break
+    finally:
+        shutil.rmtree(d, ignore_errors=True)
+    return dict(what="replace by a block of the same size and another format (real code)", cases=n, label="bounded", bound="Data3D byTrack <-> byTrackWithoutLinks of equal size, last live block"), fails
+
+
 def _mk(props):
     def run(seed, tier, root=None):
         st, fails = run_histories(seed, tier, root, props)
         extra = []
         if "C07" in props:
             extra.append(check_noncompact(seed, tier))
-        if any(p in props for p in ("C03", "C04", "C09", "C10")):
+        if any(p in props for p in ("C03", "C04", "C09", "C10", "C11")):
             extra.append(check_large_tail(seed, tier))
+        if any(p in props for p in ("C04", "C10", "C11")):
+            extra.append(check_same_size_replace(seed, tier))
         for st2, fl in extra:
             st["cases"] += st2["cases"]
             st["bound"] += "; " + st2["what"] + ": " + st2["bound"]
